@@ -169,6 +169,13 @@ def run(chk, tier, scale=1.0):
         jobs.append(dict(build=b, config=cfg.to_json(), seed=rng.randrange(1 << 30), n=3000, ids=idl, props=PROPS,
                          opts={"weights": {"stats": 6, "announce": 14, "reannounce": 5, "disconnect": 6, "registered": 3, "stray": 2, "noise": 3}, "max_open": nids},
                          leaks=True, shrink=False, want_sample=(i < 2)))
+    # requests that grow old (more than ten seconds pending; statistics then list them one by one) and are withdrawn afterwards:
+    # two idle runs in the background, without a request timeout and with a long one
+    from concurrent.futures import ThreadPoolExecutor
+    from checks import c09
+    old_pool = ThreadPoolExecutor(4)
+    old_futs = [old_pool.submit(c09._old_requests_worker, dict(build=b, seed=chk.seed * 13 + k, n=4, timeout=[None, 3600, 0][k % 3], leaks=True, then_withdraw=True, props=PROPS))
+                for k in range(2 if tier == "quick" else 6)]
     res = vcommon.pmap(prun.hist_worker, jobs)
     prun.fold(chk, "C10", res, crash_is_violation=True)
     for rs in vcommon.pmap(pcommon.script_worker, pcommon.collision_jobs(b, chk.seed, PROPS, int((120 if tier == "quick" else 3000) * scale))):
@@ -181,10 +188,14 @@ def run(chk, tier, scale=1.0):
     chk.count("long_history_events", sum(r["nsteps"] for r in lres))
     tres = vcommon.pmap(timer_worker, timers)
     prun.fold(chk, "C10", tres, crash_is_violation=True)
+    ores = [f.result() for f in old_futs]
+    old_pool.shutdown()
+    prun.fold(chk, "C10", ores, crash_is_violation=True)
+    chk.require("old_request_lines", 3)
     chk.count("clean_exits_with_leak_check", len(res) + len(lres) + len(tres) - chk.observed.get("daemon_unclean", 0))
     chk.rule = ("(1) random lock-step histories of 3000 events over 5..500 ids with `? stats` at random points: the reported 'in use' must equal the number of clients "
                 "announced and not withdrawn / registered / decided (re-announcement replaces); (2) one pipelined history of %s events with up to %s concurrent clients; "
-                "(3) real-timer runs (timeout 1 s): clients finished by D, T, verdict, refusal or replaced by re-announcement, then 1.6 s idle - a timer of a finished request "
+                "(4) requests left pending for 11 s (statistics list them as old), then withdrawn one by one with statistics in between; (3) real-timer runs (timeout 1 s): clients finished by D, T, verdict, refusal or replaced by re-announcement, then 1.6 s idle - a timer of a finished request "
                 "firing shows as use-after-free, as output naming a closed client, or as a leaked event; every run must end with exit 0 and a clean LeakSanitizer report; "
                 "distinct = input stream; non-trivial = at least one verdict" % ("200 000" if tier == "quick" else "2 000 000", "500" if tier == "quick" else "5000"))
     chk.require("stats_checks", 3000 * min(1.0, scale))
